@@ -113,6 +113,8 @@ impl<'a> Lexer<'a> {
                         Some(_) => {
                             self.txt.next();
                         } // advance the token by default and maintain state
+                        // the input ends before the list is closed
+                        None if is_list => return Err(LexerError::UnclosedList),
                         None => {
                             self.state = State::EOF;
                         }
@@ -225,6 +227,8 @@ impl<'a> Lexer<'a> {
                             Self::push_to_str(&mut char_data, ch)?;
                         }
                         Some(ch) => return Err(LexerError::UnrecognizedChar(ch)),
+                        // the input ends before the list is closed
+                        None if is_list => return Err(LexerError::UnclosedList),
                         None => {
                             self.state = State::EOF;
                             return char_data
